@@ -155,7 +155,8 @@ CLAIMED = {
     "C09": dict(
         text="Lean 4 theorems: the state after a link is the left fold of 'update MATCHED_*, then run every non-disruptive "
              "action once' over exactly the link's matches, in order (so once per match, macros expanded at that moment); "
-             "setvar assign/delete single-step lemmas; HIGHEST_SEVERITY is lowered to the minimum by MatchRule only when the "
+             "setvar assign/delete single-step lemmas; m executions of setvar:tx.k=+n turn the decimal text of cur into that of cur+m·n "
+             "(C09_sum, through the proved Itoa/Atoi round trip); HIGHEST_SEVERITY is lowered to the minimum by MatchRule only when the "
              "rule fired; the disruptive action runs once per completed chain. Tied to /repo by `eng` (profile acct).",
         note=_ENG_NOTE, ref="6/C09", engine="eng"),
     "C12": dict(
@@ -177,7 +178,7 @@ CLAIMED = {
         text="Lean 4 theorems over the engine model for every rule set, request and API call sequence of any length: an "
              "interrupted phase 1-4 evaluates nothing further; with an interruption in place every later non-logging call "
              "returns exactly it and changes no state; ProcessLogging evaluates logging-phase rules only; DetectionOnly never "
-             "sets the interruption and remembers only the first would-be one; Off evaluates nothing; lastPhase is monotone "
+             "sets the interruption and remembers only the first would-be one; Off evaluates nothing; a phase that ends interrupted was interrupted by the last rule it evaluated, with that rule's id (C02_first); lastPhase is monotone "
              "and a request/response phase is evaluated only if not yet reached (at most once). Tied to /repo by the `eng` "
              "correspondence (profile api: repeated, skipped, out-of-order calls; mode switches by ctl).",
         note=_ENG_NOTE, ref="6/C02", engine="eng"),
